@@ -144,7 +144,8 @@ PLAN['C20'] = {
     'technique': 'Kani full-domain harnesses for per-clause choice meaning and Choice bit algebra; Verus contracts for counts carried by simplify; bounded native contract runner for the evaluator loops and JIT traces',
     'level_text': 'Proved for all inputs (Kani, loop-free): every f32/Interval *_choice result is Left/Right/Both and is what the operand values imply; Both iff tie or NaN for min/max; and/or never Both on points; OR-ing into a cleared slot records exactly the clause choice. The per-tape clauses (one entry per clause, None iff all Both, JIT == VM) are bounded stand-ins because the interpreter loops and emitted code are outside verifier reach.',
     'level_note': 'Trusted: Kani/CBMC/CaDiCaL. Bounded only: trace length/order in the VM loops, JIT traces, output array shapes.',
-    'legs': [leg_kani('leaf'), leg_verus('simplify'), leg_bounded('interp_point'), leg_bounded('trace_vm'), leg_bounded('jit_trace')],
+    'legs': [leg_kani('leaf'), leg_verus('simplify'), leg_bounded('interp_point'), leg_bounded('trace_vm'), leg_bounded('jit_trace'),
+             leg_bounded('interp_bulk'), leg_bounded('jit_bulk'), leg_bounded('reuse')],
     'explanation': 'Per-clause meaning is a complete proof over all 2^64 operand pairs; the tape-level statements are enumerated by the bounded runner.',
     'assumptions': ['tape-level clauses are bounded stand-ins (interp_point trace check, trace_vm, jit_trace)'],
 }
